@@ -229,27 +229,59 @@ def run(repo: Repo, rep: Report) -> None:
                 used = n.value.id
     if used is None:
         raise AnalysisError("_fillTemplate: bnode renaming map not found")
-    local_ok = any(nm == used and eu.parent.get(id(st)) is ft for nm, st in maps)
     params = [a.arg for a in ft.args.args]
-    rep.ob("C10.c-bnodes-fresh-per-solution", eu, "_fillTemplate", "bnode map %s" % used, local_ok and used not in params,
-           "created at the top level of the call: fresh blank nodes for each solution" if local_ok and used not in params else
+    # the map is made inside each call: at the top level of the body, or - when it is an optional parameter with which a caller shares one
+    # map between the parts of ONE solution's template - under `if <map> is None:` at the top level (the default must be None, not a map)
+    local_ok = any(nm == used and eu.parent.get(id(st)) is ft for nm, st in maps)
+    shared_param = False
+    if used in params:
+        defaults = dict(zip(reversed(params), reversed(ft.args.defaults)))
+        d = defaults.get(used)
+        none_default = isinstance(d, ast.Constant) and d.value is None
+        made_if_none = any(nm == used and isinstance(eu.parent.get(id(st)), ast.If) and norm(eu.parent[id(st)].test) == "%s is None" % used
+                           and eu.parent.get(id(eu.parent[id(st)])) is ft for nm, st in maps)
+        shared_param = none_default and made_if_none
+        local_ok = shared_param
+    rep.ob("C10.c-bnodes-fresh-per-solution", eu, "_fillTemplate", "bnode map %s" % used, local_ok,
+           ("created in the call unless the caller passes the map of the solution it is filling" if shared_param else "created at the top level of the call: fresh blank nodes for each solution") if local_ok else
            "bnode map %s is not created inside each call: blank nodes would be shared between solutions" % used, node=ft)
+    map_pos = params.index(used) if used in params else None
     for q, f in evaluators.items():
         for c in [n for n in own_nodes(f) if isinstance(n, ast.Call) and norm(n.func) == "_fillTemplate"]:
-            loopvar = None
+            loopvar, loop = None, None
             for p in up.parents(c):
                 if isinstance(p, ast.For):
                     # the innermost loop over solutions: skip loops over the request's quads dict
                     if _lazy_reason(p.iter, f, up, {"u"}) is None and norm(p.iter).startswith("u."):
                         continue
-                    loopvar = norm(p.target)
+                    loopvar, loop = norm(p.target), p
                     break
                 if p is f:
                     break
             arg = norm(c.args[1]) if len(c.args) > 1 else None
-            ok = loopvar is not None and arg == loopvar
-            rep.ob("C10.c-bnodes-fresh-per-solution", up, q, c, ok,
-                   "called once per solution %s" % loopvar if ok else "template filled with %s outside/away from the per-solution loop variable %s" % (arg, loopvar), node=c)
+            ctxp = f.args.args[0].arg if f.args.args else None
+            if loopvar is None and arg == ctxp:
+                # ground data (INSERT DATA): no solutions, the template is instantiated once per operation with the context's initial bindings
+                ok, why = True, "ground data: filled once per operation"
+            else:
+                ok = loopvar is not None and arg == loopvar
+                why = "called once per solution %s" % loopvar if ok else "template filled with %s outside/away from the per-solution loop variable %s" % (arg, loopvar)
+            rep.ob("C10.c-bnodes-fresh-per-solution", up, q, c, ok, why, node=c)
+            # a map handed in: it must be made anew for every solution (in the body of that solution's loop), for ground data anew per operation
+            marg = None
+            if map_pos is not None:
+                if len(c.args) > map_pos:
+                    marg = c.args[map_pos]
+                for k in c.keywords:
+                    if k.arg == used:
+                        marg = k.value
+            if marg is not None:
+                made = [a for a in own_nodes(f) if isinstance(a, (ast.Assign, ast.AnnAssign)) and norm(a.targets[0] if isinstance(a, ast.Assign) else a.target) == norm(marg)]
+                scope = loop if loop is not None else f
+                okm = bool(made) and all(up.parent.get(id(a)) is scope for a in made)
+                rep.ob("C10.c-bnodes-fresh-per-solution", up, q, "map %s passed to %s" % (norm(marg), norm(c)[:50]), okm,
+                       "made anew for each %s" % ("solution" if loop is not None else "operation") if okm else
+                       "the blank node map %s handed to _fillTemplate is not made anew in the body of the loop over solutions: one solution's blank nodes are reused for the next" % norm(marg), node=c)
 
     rep.rule("C10.d-unbound-skipped",
              "_fillTemplate yields a triple only under `is not None` tests of all three instantiated components "
@@ -270,6 +302,17 @@ def run(repo: Repo, rep: Report) -> None:
                     guarded = set()
             if p is ft:
                 break
+        # ... or earlier in the same block: `if a is None or b is None ...: continue`
+        ys = y
+        while eu.parent.get(id(ys)) is not None and not isinstance(eu.parent[id(ys)], (ast.For, ast.While, ast.FunctionDef)):
+            ys = eu.parent[id(ys)]
+        blk = getattr(eu.parent.get(id(ys)), "body", [])
+        for st in blk[:blk.index(ys)] if ys in blk else []:
+            if isinstance(st, ast.If) and not st.orelse and isinstance(st.body[-1], (ast.Continue, ast.Return, ast.Raise)):
+                leaves = st.test.values if isinstance(st.test, ast.BoolOp) and isinstance(st.test.op, ast.Or) else [st.test]
+                for c in leaves:
+                    if isinstance(c, ast.Compare) and len(c.ops) == 1 and isinstance(c.ops[0], ast.Is) and isinstance(c.comparators[0], ast.Constant) and c.comparators[0].value is None:
+                        guarded.add(norm(c.left))
         ok = len(comps) == 3 and set(comps) <= guarded
         rep.ob("C10.d-unbound-skipped", eu, "_fillTemplate", y, ok,
                "all of %s tested `is not None`" % comps if ok else "component(s) %s emitted without an `is not None` test" % sorted(set(comps) - guarded), node=y)
@@ -519,6 +562,9 @@ def active_graph_rule(repo: Repo, rep: Report) -> None:
             if srcs and all(s in ("Graph()",) for s in srcs):
                 return "SCRATCH"
             return "PUSH(%s)" % ",".join(sorted(srcs))[:60]
+        if isinstance(v, ast.Call) and norm(v.func) == "QueryContext" and any(k.arg == "datasetClause" and norm(k.value) == A_USING for k in v.keywords):
+            # a context of its own, whose dataset is built from the USING clauses (as a query's from FROM / FROM NAMED)
+            return "SCRATCH"
         return "OTHER(%s)" % norm(st)[:40]
 
     # sites
@@ -526,6 +572,19 @@ def active_graph_rule(repo: Repo, rep: Report) -> None:
     if len(where_sites) != 1:
         raise AnalysisError("evalModify: expected exactly one evalPart(ctx, u.where) call, found %d" % len(where_sites))
     tmpl_sites = []  # statements that read ctx to pick the graph a template is applied to
+    # helpers of the module that hand out the active graph of the context they are given (`_defaultGraph(ctx)` reads ctx.graph)
+    graph_selectors = set()
+    for q in up.defs:
+        hf = up.func(q) if up.has(q) else None
+        if isinstance(hf, ast.FunctionDef) and hf.args.args:
+            p0 = hf.args.args[0].arg
+            if any(isinstance(x, ast.Attribute) and x.attr == "graph" and norm(x.value) == p0 for x in own_nodes(hf)) and any(isinstance(x, ast.Return) for x in own_nodes(hf)):
+                graph_selectors.add(q)
+
+    def reads_active_graph(x: ast.AST) -> bool:
+        if isinstance(x, ast.Attribute) and x.attr == "graph" and norm(x.value) == ctxname:
+            return True
+        return isinstance(x, ast.Call) and norm(x.func) in graph_selectors and bool(x.args) and norm(x.args[0]) == ctxname
     for n in own_nodes(em):
         if isinstance(n, ast.AugAssign) and any(isinstance(c, ast.Call) and norm(c.func) == "_fillTemplate" for c in ast.walk(n.value)):
             t = n.target
@@ -533,9 +592,9 @@ def active_graph_rule(repo: Repo, rep: Report) -> None:
                 for d in reaching_defs(g, g.node_of(n, up), t.id, {}):
                     ds = g.nodes[d].ast
                     # only the ACTIVE graph (ctx.graph) depends on which context is current; ctx.dataset is shared by all pushed contexts
-                    if ds is not None and any(isinstance(x, ast.Attribute) and x.attr == "graph" and norm(x.value) == ctxname for x in ast.walk(ds)) and ds not in tmpl_sites:
+                    if ds is not None and any(reads_active_graph(x) for x in ast.walk(ds)) and ds not in tmpl_sites:
                         tmpl_sites.append(ds)
-            elif any(isinstance(x, ast.Attribute) and x.attr == "graph" and norm(x.value) == ctxname for x in ast.walk(t)):
+            elif any(reads_active_graph(x) for x in ast.walk(t)):
                 if n not in tmpl_sites:
                     tmpl_sites.append(n)
     if len(tmpl_sites) < 1:
